@@ -252,3 +252,69 @@ func VerifC14SliceGC() {
 }
 
 func metav1Types(s string) types.UID { return types.UID(s) }
+
+// VerifC14SliceGCWiring: slice garbage collection through the deployers' real constructors, namespaced and
+// cluster-scoped: a slice that only an existing (Cluster)ObjectSet of the deployment still references survives, an
+// unreferenced one is collected. The API keeps namespaced and cluster-scoped kinds apart, as the real one does.
+func VerifC14SliceGCWiring() {
+	cluster := verifrt.Bool("clusterScoped")
+	c := verifk8s.NewClient()
+	var d *PackageDeployer
+	var dep adapters.ObjectDeploymentAccessor
+	if cluster {
+		d = NewClusterPackageDeployer(c, vScheme(), nil)
+		x := &adapters.ClusterObjectDeployment{}
+		x.Name, x.UID = "dep", "uid-dep"
+		dep = x
+	} else {
+		d = NewPackageDeployer(c, verifk8s.NewClient(), vScheme(), nil)
+		x := &adapters.ObjectDeployment{}
+		x.Name, x.Namespace, x.UID = "dep", "ns", "uid-dep"
+		dep = x
+	}
+	referencedBySet := verifrt.Bool("slice.s1.referencedByExistingObjectSet")
+	c.OnList = func(list client.ObjectList, _ *client.ListOptions) error {
+		switch l := list.(type) {
+		case *corev1alpha1.ObjectSetList:
+			if !cluster && referencedBySet {
+				os := corev1alpha1.ObjectSet{}
+				os.Name, os.Namespace = "rev1", "ns"
+				os.Spec.Phases = []corev1alpha1.ObjectSetTemplatePhase{{Name: "p", Slices: []string{"s1"}}}
+				l.Items = append(l.Items, os)
+			}
+		case *corev1alpha1.ClusterObjectSetList:
+			if cluster && referencedBySet {
+				os := corev1alpha1.ClusterObjectSet{}
+				os.Name = "rev1"
+				os.Spec.Phases = []corev1alpha1.ObjectSetTemplatePhase{{Name: "p", Slices: []string{"s1"}}}
+				l.Items = append(l.Items, os)
+			}
+		case *corev1alpha1.ObjectSliceList:
+			if !cluster {
+				sl := corev1alpha1.ObjectSlice{}
+				sl.Name, sl.Namespace = "s1", "ns"
+				l.Items = append(l.Items, sl)
+			}
+		case *corev1alpha1.ClusterObjectSliceList:
+			if cluster {
+				sl := corev1alpha1.ClusterObjectSlice{}
+				sl.Name = "s1"
+				l.Items = append(l.Items, sl)
+			}
+		default:
+			panic("unexpected list type")
+		}
+		return nil
+	}
+	r := d.deploymentReconciler.(*DeploymentReconciler)
+	err := r.sliceGarbageCollection(context.Background(), dep)
+	verifrt.Assert(err == nil, "C14/gc-succeeds")
+	deleted := false
+	for _, call := range c.Calls {
+		if call.Verb == "delete" && call.Key.Name == "s1" {
+			deleted = true
+		}
+	}
+	verifrt.Assert(deleted == !referencedBySet, "C14/gc-deletes-exactly-unreferenced-slices")
+	verifrt.Reach("gc-wired")
+}
